@@ -6,6 +6,8 @@
 package routing
 
 import (
+	"sync"
+
 	log "github.com/sirupsen/logrus"
 
 	"github.com/dtn7/dtn7-go/pkg/bpv7"
@@ -17,6 +19,9 @@ import (
 // flooding-based epidemic way.
 type EpidemicRouting struct {
 	c *Core
+
+	// sentMutex serializes the read-modify-write cycles on a bundle's list of already served peers.
+	sentMutex sync.Mutex
 }
 
 // NewEpidemicRouting creates a new EpidemicRouting Algorithm interacting
@@ -31,6 +36,9 @@ func NewEpidemicRouting(c *Core) *EpidemicRouting {
 //
 // In our case, the PreviousNodeBlock will be inspected.
 func (er *EpidemicRouting) NotifyNewBundle(bp BundleDescriptor) {
+	er.sentMutex.Lock()
+	defer er.sentMutex.Unlock()
+
 	bi, biErr := er.c.store.QueryId(bp.Id)
 	if biErr != nil {
 		log.WithFields(log.Fields{
@@ -84,6 +92,9 @@ func (er *EpidemicRouting) NotifyNewBundle(bp BundleDescriptor) {
 }
 
 func (er *EpidemicRouting) clasForBundle(bp BundleDescriptor, updateDb bool) (css []cla.ConvergenceSender, del bool) {
+	er.sentMutex.Lock()
+	defer er.sentMutex.Unlock()
+
 	bi, biErr := er.c.store.QueryId(bp.Id)
 	if biErr != nil {
 		log.WithFields(log.Fields{
@@ -156,6 +167,9 @@ func (er *EpidemicRouting) SenderForBundle(bp BundleDescriptor) (css []cla.Conve
 }
 
 func (er *EpidemicRouting) ReportFailure(bp BundleDescriptor, sender cla.ConvergenceSender) {
+	er.sentMutex.Lock()
+	defer er.sentMutex.Unlock()
+
 	bi, biErr := er.c.store.QueryId(bp.Id)
 	if biErr != nil {
 		log.WithFields(log.Fields{
